@@ -26,7 +26,7 @@ EXPLANATION = (
     "label-table builder have no effect on self, so they cannot change what a later transform returns)."
 )
 NOT_DECIDED = "equality of frames on data; pandas' own copy-on-write semantics"
-FLOORS = {"R-transform-readonly": 24, "R-copy-true": 24, "R-fit-returns-self": 12, "R-index-kept": 1, "R-rowwise": 12, "R-fit-transform": 2, "R-readonly-queries": 30, "R-nan-assert": 3}
+FLOORS = {"R-guard-first": 12, "R-transform-readonly": 24, "R-copy-true": 24, "R-fit-returns-self": 12, "R-index-kept": 1, "R-rowwise": 12, "R-fit-transform": 2, "R-readonly-queries": 30, "R-nan-assert": 3}
 
 CALLER_DATA = ("p:X", "p:y", "p:X_dev", "p:y_dev")
 
@@ -319,6 +319,9 @@ def check(ctx):
     from . import c05
 
     c05.rule_nan_assert(ctx)  # missing rows are addressed with the boolean mask isna(df_feature), not positions
+    from . import c19
+
+    c19.rule_guard_first(ctx)  # a refused re-fit leaves the fitted state alone: later transforms are unchanged
 
 
 MUTANTS = [
